@@ -31,4 +31,11 @@ def Bucket.run (B E : Int) : Option Bucket → List (Int × Int) → List Bool
     let (b', a, _) := Bucket.step B E b t q
     a :: Bucket.run B E b' rest
 
+/-- decisions and remaining tokens of a whole single-key history `(t, q)` -/
+def Bucket.runFull (B E : Int) : Option Bucket → List (Int × Int) → List (Bool × Int)
+  | _, [] => []
+  | b, (t, q) :: rest =>
+    let s := Bucket.step B E b t q
+    (s.2.1, s.2.2) :: Bucket.runFull B E s.1 rest
+
 end TcVerif
